@@ -6,6 +6,7 @@ percent, braces, newline, non-ASCII and semicolon; positions: argument of a mode
 comparison, bare output column, bank name, attribute name, tree name, column names, dict keys.  The compiled job must
 observe the same value / bytes and kind - or translation must have raised.
 """
+import ast
 import itertools
 import struct
 import sys
@@ -68,6 +69,19 @@ def build_cases(tier, backend):
         add("float", "kind-arg", t, per.format(f"j.kind({t})"), ("kind", "floating"))
         add("float", "compare", t, per.format(f"j.pt() > {t}"), ("value", 2.5 > v))
         add("float", "column", t, per.format(t), ("bits", v))
+    # the same numbers as ONE constant node (a captured python variable): negative values are not a unary minus then
+    for t in [repr(v) for v in INTS if abs(v) < 2 ** 31] + ["-2.5", "-0.5", "0.5", "-1e-07", "-123456789.125", "-1e+22"]:
+        v = ast.literal_eval(t)
+        kc = f"vm_const({t})"
+        add("captured", "arith-right-minus", t, per.format(f"j.pt() - {kc}"), ("value", 2.5 - v))
+        add("captured", "arith-right-plus", t, per.format(f"j.pt() + {kc}"), ("value", 2.5 + v))
+        add("captured", "arith-left-minus", t, per.format(f"{kc} - j.pt()"), ("value", v - 2.5))
+        add("captured", "arith-times", t, per.format(f"j.pt() * {kc}"), ("value", 2.5 * v))
+        add("captured", "arith-chain", t, per.format(f"j.pt() - {kc} - {kc}"), ("value", 2.5 - v - v))
+        add("captured", "literal-minus-literal", t, per.format(f"j.pt() * 0 + (2 - {kc})"), ("value", 2.5 * 0 + (2 - v)))
+        add("captured", "unary-minus", t, per.format(f"j.pt() * 0 + (-{kc})"), ("value", 2.5 * 0 + (-v)))
+        add("captured", "echo-arg", t, per.format(f"j.echoD({kc})"), ("value", float(v)))
+        add("captured", "compare", t, per.format(f"j.pt() > {kc}"), ("value", 2.5 > v))
     for t in ("True", "False"):
         v = t == "True"
         add("bool", "echo-arg", t, per.format(f"j.echoB({t})"), ("value", v))
